@@ -47,6 +47,14 @@ def main_merge(args):
     l = read_notebook(lfn, on_null='minimal')
     r = read_notebook(rfn, on_null='minimal')
 
+    # A placeholder for a missing or empty file is a new (latest minor
+    # version) notebook: do not let it upgrade the format of the others
+    minors = [nb.nbformat_minor for nb in (b, l, r) if nb.cells or nb.metadata]
+    if minors:
+        for nb in (b, l, r):
+            if not (nb.cells or nb.metadata):
+                nb.nbformat_minor = min(minors)
+
     merged, decisions = merge_notebooks(b, l, r, args)
     conflicted = [d for d in decisions if d.conflict]
 
